@@ -127,11 +127,24 @@ BLOCKS = {
 }
 
 
+INSIDE = {
+    "comment": ("@comment{", "}\n@a{k}"),
+    "preamble": ("@preamble{", "}"),
+    "string": ("@string{s = ", "}\n"),
+    "field": ("@a{k, t = ", "}\n@b{j}"),
+    "braced": ("@a{k, t = {", "}, u = 1}"),
+    "quoted": ("@a{k, t = \"", "\", u = 1}"),
+    "key": ("@a{", ", t = 1}"),
+}
+
+
 def main():
     chk = Check("C01", __doc__)
     LG, LT = (5, 2) if chk.tier == "quick" else (7, 4)
+    LI = 4 if chk.tier == "quick" else 6
     chk.bounds = {"alphabet": SIGMA_S, "pure garbage: every text of length": f"0..{LG}",
                   "templates": f"B1 + X + B2 / B1 + X with B1 in {sorted(BLOCKS)}, B2 in entry/string, X every text of length 1..{LT}",
+                  "inside bodies": f"X of length 1..{LI} inside the body of @comment / @preamble / @string / a field value (bare, braced, quoted) / the key position",
                   "recursion bound": f"no repo function more than {MAXREC} times on the stack", "step limit per world": 2_000_000}
     chk.assumptions = ["alphabet as in C03 (one representative per class of the mark regex)",
                        "sizes 10^3..10^5 are not executed symbolically: the claim for them rests on the recursion-depth and step-limit obligations (any input-driven recursion found is confirmed by a pumped replay on the real code)",
@@ -148,6 +161,10 @@ def main():
             chk.add_task(f"tmpl-{n1}+X{L}", task, parts=[("lit", b1), ("sym", L, SIGMA_S)], label=f"{n1}+X")
             for n2 in ("entry", "string"):
                 chk.add_task(f"tmpl-{n1}+X{L}+{n2}", task, parts=[("lit", b1), ("sym", L, SIGMA_S), ("lit", "\n" + BLOCKS[n2])], label=f"{n1}+X+{n2}")
+    # symbolic text INSIDE block bodies (nesting, unterminated bodies, marks inside values)
+    for nm, (pre, post) in INSIDE.items():
+        for L in range(LI, 0, -1):
+            chk.add_task(f"inside-{nm}-X{L}", task, parts=[("lit", pre), ("sym", L, SIGMA_S), ("lit", post)], label=f"inside-{nm}")
     chk.run()
 
 
